@@ -77,10 +77,32 @@ def contracts():
                        params={"ctx": "ctx", "fn_name": "str", "args": "strlist", "expander": "cb:total_str"},
                        requires=list(CTX_FACTS), raises=[], result="str",
                        callbacks={"fn": "parser_function"}))
+    # P2: in-band failure on the two guarded branches of expand_recurse (frame mode, every path reaching them)
+    cs.append(Contract(
+        target="core:Wtp.expand.expand_recurse", variant="inband", prop="C05", mode="frame",
+        params={"coded": "str", "parent": "opq", "expand_all": "bool"},
+        callbacks={"template_fn": "user_hook", "post_template_fn": "user_hook",
+                   "self.template_override_funcs[name]": "user_hook"},
+        requires=["seq_len(ctx.expand_stack) >= 1"],
+        track_log=True, log_names=["error", "warning", "expand_recurse", "expand_args"],
+        asserts={
+            # depth limit: the error was recorded, nothing was expanded for this call, the path is untouched,
+            # and the part appended is an error element
+            "parts.append('<strong class=\"error\">too deep recursion": [
+                "logged('error') == 1", "logged('expand_recurse') == 0", "logged('expand_args') == 0",
+                "seq_len(ctx.expand_stack) >= 100", "ctx.expand_stack == old(ctx.expand_stack)"],
+            # template loop: the error element is appended while the looping frame is still on the path ...
+            "parts.append(f'<strong class=\"error\">Template loop detected": [
+                "seq_len(ctx.expand_stack) == seq_len(old(ctx.expand_stack)) + 1"],
+            # ... then the frame is popped and the warning recorded, without expanding the body
+            "self.warning(f'Template loop detected": [
+                "ctx.expand_stack == old(ctx.expand_stack)", "logged('warning') == 0"],
+        }))
     return cs
 
 
 CALLBACK_CONTRACTS = {
+    "user_hook": {"text": "user hook", "result": "opq", "may_raise": True},
     "parser_function": {"text": "every value of PARSER_FUNCTIONS is one of the functions under the totality "
                                 "contract above (checked: the dict literal's values are exactly those names)",
                         "result": "str", "may_raise": False},
